@@ -827,6 +827,12 @@ def run(ctx, big=False, model=True):
     golden(ctx, res)
     histories(ctx, res, 200 if thorough else 45, 70 if thorough else 40)
     merge_cases(ctx, res, 120 if thorough else 30, model=model and not ctx.search_mode)
+    # a handle opened while another client writes (schedule driver; shared with C08): whatever the interleaving,
+    # both handles see consistent contents and bookkeeping afterwards
+    from props import c08 as _c08
+    _st = {}
+    _c08.open_races(ctx, res, _st, 150 if thorough else 12)
+    res.extra['open_race_schedules'] = _st.get('open_race_runs', 0)
     res.witnessed['fanout_size_limit_reset'] = witness_d17()
     return res
 
